@@ -124,7 +124,7 @@ pub fn rows(args: &[String]) -> i32 {
         ("range", b"U8 #H100"), ("range", b"I16 #HFFFF"), ("range", b"U8 300.5"),
         ("range", b"U8 #H10000000000000000"), ("range", b"I16 #Q2000000000000000000000"), ("range", b"I16 #Q7777777777777777777777"),
         ("range", b"U8 #B10000000000000000000000000000000000000000000000000000000000000000"), ("range", b"U8 1e400"), ("range", b"I16 -1e400"),
-        ("range", b"U8 99999999999999999999999999"), ("range", b"I16 -99999999999999999999999999"), ("range", b"U8 255.5"), ("range", b"I16 -32768.5"),
+        ("range", b"U8 99999999999999999999999999"), ("range", b"I16 -99999999999999999999999999"), ("range", b"U8 255.6"), ("range", b"I16 -32768.51"),
         ("value", b"CH1 (@-1)"), ("value", b"CH2 (@-1!2)"), ("value", b"CH2 (@1!-2)"), ("value", b"CH3 (@-1!2!3)"), ("value", b"CH3 (@1!-2!3)"), ("value", b"CH3 (@1!2!-3)"),
         ("value", b"ENUM MEDIUM"), ("value", b"BOOL MAYBE"), ("value", b"ENUM FASTER"),
     ];
